@@ -283,6 +283,25 @@ def compare_feature_forms(ctx: Ctx, f: str, cfg, paths, T: int, H: int, dtype):
             if one.shape != full_s[:, [i]].shape or not bool(((one - full_s[:, [i]]).abs() <= tol).all()):
                 return (f"feature:{f}:short-dated-step-vs-all", f"{f}.get({i}) differs from column {i} of {f}.get(None) for a derivative whose underlier was simulated beyond its maturity",
                         {"T": T, "step": i, "maturity_steps": max(1, (T - 1) // 2), "single": one.flatten()[:4].tolist(), "column": full_s[:, [i]].flatten()[:4].tolist()})
+    # FEWER PATHS THAN TIME STEPS (one path, two paths): the step index addresses the time axis whatever the number of paths is
+    for n_few in (1, 2):
+        if n_few >= T or n_few >= len(paths):
+            continue
+        few = paths[:n_few]
+        d_few, _, _ = build_market(cfg, few, K, DT, dtype)
+        full_f = get_feature(make_feature(f, H, dtype)).of(d_few).get(None)
+        d_few2, _, _ = build_market(cfg, few, K, DT, dtype)
+        ff = get_feature(make_feature(f, H, dtype)).of(d_few2)
+        tol = time_tol(T, dtype) * (4 if f == "module_a" else 1) if f in ("time_to_maturity", "expiry_time", "module_a") else 0.0
+        for i in range(T):
+            ctx.count(n=1)
+            try:
+                one = ff.get(i)
+            except Exception as e:
+                return (f"feature:{f}:few-paths-raises", f"{f}.get({i}) raised {type(e).__name__} with {n_few} path(s) and {T} steps", {"T": T, "step": i, "error": repr(e)[:200]})
+            if one.shape != full_f[:, [i]].shape or not bool(((one - full_f[:, [i]]).abs() <= tol).all()):
+                return (f"feature:{f}:few-paths-step-vs-all", f"{f}.get({i}) differs from column {i} of {f}.get(None) when there are fewer paths ({n_few}) than time steps ({T})",
+                        {"T": T, "step": i, "n_paths": n_few, "single": one.flatten()[:4].tolist(), "column": full_f[:, [i]].flatten()[:4].tolist()})
     return None
 
 
